@@ -28,7 +28,9 @@ ORACLE_OWNER = {
     "errcode": ["C02"], "noop": ["C02"], "holder": ["C02"], "unregistered": ["C02", "C01"],
     "heap": ["C02"], "missed-timeout": ["C02", "C01"], "early-timeout": ["C02"],
     "lost": ["C01"], "phantom": ["C01", "C02"], "body": ["C01"], "pub": ["C01"],
-    "settle": ["C01", "C03"], "missed-defer": ["C01"], "early-defer": ["C01"], "req-defer": ["C01"],
+    "settle": PROPS_ALL, "settle-count": ["C13", "C01"], "settle-ledger": ["C01", "C02", "C13"],
+    "settle-stall": ["C03", "C01"], "settle-pausedpump": ["C03"], "client-count": ["C13", "C03"],
+    "conc-after-fin": ["C02"], "conc-pub": ["C01"], "conc-sub": ["C03"], "conc-err": ["C02"], "conc-frame": ["C01"], "missed-defer": ["C01"], "early-defer": ["C01"], "req-defer": ["C01"],
     "no-reply": ["C01", "C02", "C03", "C13"], "stray-frame": ["C02", "C03"], "exit-hang": ["C01"],
     "rdy": ["C03"], "rdy-range": ["C03"], "paused-deliver": ["C03"], "topic-pause": ["C03"],
     "pause-http": ["C03"], "sub": ["C03"], "identify": ["C03"],
@@ -234,13 +236,15 @@ def shared_run(ctx):
                     if os.path.exists(os.path.join(cdir, n)):
                         shutil.copy(os.path.join(cdir, n), os.path.join(cdir, "first_" + n))
             else:
-                k1 = set(f["key"] for f in first[0]) | set(d["op"].split()[0] + "@diff" for d in first[1])
-                k2 = set(f["key"] for f in fails) | set(d["op"].split()[0] + "@diff" for d in diffs)
+                # the run is deterministic up to goroutine scheduling: a real failure shows again
+                # at the same operation of the same episode
+                k1 = set((f["key"], f["where"]) for f in first[0]) | set((d["op"].split()[0] + "@diff", d["line"]) for d in first[1])
+                k2 = set((f["key"], f["where"]) for f in fails) | set((d["op"].split()[0] + "@diff", d["line"]) for d in diffs)
                 gone = k1 - k2
                 if gone:
-                    res["notes"].append("not reproduced on a second run of the same seed (dropped): %s" % sorted(gone))
-                res["fails"] = [f for f in first[0] if f["key"] in k2]
-                res["diffs"] = [d for d in first[1] if d["op"].split()[0] + "@diff" in k2]
+                    res["notes"].append("not reproduced at the same operation on a second run of the same seed (dropped): %s" % sorted(map(str, gone)))
+                res["fails"] = [f for f in first[0] if (f["key"], f["where"]) in k2]
+                res["diffs"] = [d for d in first[1] if (d["op"].split()[0] + "@diff", d["line"]) in k2]
                 for n in ("e2.ops", "e2.impl", "e2.model", "e2.cmds"):
                     if os.path.exists(os.path.join(cdir, "first_" + n)):
                         shutil.copy(os.path.join(cdir, "first_" + n), os.path.join(cdir, n))
